@@ -99,7 +99,7 @@ func (t *schedRTx) wrap(b mwdb.Bucket) mwdb.Bucket {
 	if b == nil {
 		return nil
 	}
-	return &schedBucket{bktI: b, s: t.s, tx: t}
+	return &schedBucket{isoBktI: b, s: t.s, tx: t}
 }
 func (t *schedRTx) TopLevelBucket(name string) mwdb.Bucket {
 	t.s.read("bucket")
@@ -115,33 +115,33 @@ func (t *schedRTx) BucketNames() ([]string, error) {
 }
 func (t *schedRTx) Rollback() error { return t.inner.Rollback() }
 
-type bktI = mwdb.Bucket
+type isoBktI = mwdb.Bucket
 
 type schedBucket struct {
-	bktI
+	isoBktI
 	s  *isoSched
 	tx *schedRTx
 }
 
 func (b *schedBucket) Bucket(name string) mwdb.Bucket {
 	b.s.read("bucket")
-	return b.tx.wrap(b.bktI.Bucket(name))
+	return b.tx.wrap(b.isoBktI.Bucket(name))
 }
 func (b *schedBucket) BucketNames() ([]string, error) {
 	b.s.read("names")
-	return b.bktI.BucketNames()
+	return b.isoBktI.BucketNames()
 }
 func (b *schedBucket) Get(key []byte) ([]byte, error) {
 	b.s.read("get")
-	return b.bktI.Get(key)
+	return b.isoBktI.Get(key)
 }
 func (b *schedBucket) GetByPrefix(p []byte) ([]*mwdb.Entry, error) {
 	b.s.read("prefix")
-	return b.bktI.GetByPrefix(p)
+	return b.isoBktI.GetByPrefix(p)
 }
 func (b *schedBucket) NewIterator(r *mwdb.Range) mwdb.Iterator {
 	b.s.read("iter")
-	return &schedIter{Iterator: b.bktI.NewIterator(r), s: b.s}
+	return &schedIter{Iterator: b.isoBktI.NewIterator(r), s: b.s}
 }
 
 type schedIter struct {
@@ -171,7 +171,7 @@ func (x *isoExec) env() *WEnv {
 	if x.e == nil {
 		s := &isoSched{}
 		x.s = s
-		x.e = NewWEnvWith(func(e *WEnv) {
+		x.e = newWEnvWrapped(func(e *WEnv) {
 			e.wrapDB = func(d mwdb.DB) mwdb.DB { return &schedDB{inner: d, s: s} }
 		})
 		x.stats = map[string]int{}
@@ -199,8 +199,8 @@ func (x *isoExec) Close() {
 	}
 }
 
-// NewWEnvWith builds a WEnv whose wrapDB is installed before the first wallet database is opened.
-func NewWEnvWith(pre func(e *WEnv)) *WEnv {
+// newWEnvWrapped builds a WEnv whose wrapDB is installed before the first wallet database is opened.
+func newWEnvWrapped(pre func(e *WEnv)) *WEnv {
 	wenvCounter++
 	e := &WEnv{n: wenvCounter}
 	cwd, _ := os.Getwd()
@@ -239,10 +239,10 @@ func (x *isoExec) Exec(a []string) string {
 
 // ---------------------------------------------------------------- logical snapshots of the wallet db
 
-// dbDump: bucket path ("top/sub/...") -> key -> value, taken through the public db.DB interface.
-type dbDump map[string]map[string][]byte
+// isoDump: bucket path ("top/sub/...") -> key -> value, taken through the public db.DB interface.
+type isoDump map[string]map[string][]byte
 
-func dumpBucket(b mwdb.Bucket, path string, out dbDump) error {
+func isoDumpBucket(b mwdb.Bucket, path string, out isoDump) error {
 	ents, err := b.GetByPrefix(nil)
 	if err != nil {
 		return err
@@ -261,15 +261,15 @@ func dumpBucket(b mwdb.Bucket, path string, out dbDump) error {
 		if sub == nil {
 			return fmt.Errorf("bucket %s/%s vanished", path, n)
 		}
-		if err := dumpBucket(sub, path+"/"+n, out); err != nil {
+		if err := isoDumpBucket(sub, path+"/"+n, out); err != nil {
 			return err
 		}
 	}
 	return nil
 }
 
-func dumpDB(db mwdb.DB) (dbDump, error) {
-	out := dbDump{}
+func isoDumpDB(db mwdb.DB) (isoDump, error) {
+	out := isoDump{}
 	err := mwdb.View(db, func(tx mwdb.ReadTransaction) error {
 		names, err := tx.BucketNames()
 		if err != nil {
@@ -280,7 +280,7 @@ func dumpDB(db mwdb.DB) (dbDump, error) {
 			if b == nil {
 				return fmt.Errorf("top bucket %s vanished", n)
 			}
-			if err := dumpBucket(b, n, out); err != nil {
+			if err := isoDumpBucket(b, n, out); err != nil {
 				return err
 			}
 		}
@@ -289,10 +289,10 @@ func dumpDB(db mwdb.DB) (dbDump, error) {
 	return out, err
 }
 
-// revertDB writes the database back to the dumped contents (one write transaction). The set of
+// isoRevertDB writes the database back to the dumped contents (one write transaction). The set of
 // buckets must be unchanged (block processing never creates or deletes buckets); otherwise error.
-func revertDB(db mwdb.DB, want dbDump) error {
-	cur, err := dumpDB(db)
+func isoRevertDB(db mwdb.DB, want isoDump) error {
+	cur, err := isoDumpDB(db)
 	if err != nil {
 		return err
 	}
@@ -361,15 +361,15 @@ func (x *isoExec) freshManager() error {
 	return nil
 }
 
-func (x *isoExec) save() (dbDump, error) {
+func (x *isoExec) save() (isoDump, error) {
 	if err := x.freshManager(); err != nil {
 		return nil, err
 	}
-	return dumpDB(x.e.wdb)
+	return isoDumpDB(x.e.wdb)
 }
 
-func (x *isoExec) restore(d dbDump) error {
-	if err := revertDB(x.e.wdb, d); err != nil {
+func (x *isoExec) restore(d isoDump) error {
+	if err := isoRevertDB(x.e.wdb, d); err != nil {
 		return err
 	}
 	return x.freshManager()
@@ -377,9 +377,9 @@ func (x *isoExec) restore(d dbDump) error {
 
 // ---------------------------------------------------------------- queries
 
-func isBuild(q []string) bool { return len(q) == 3 && (q[0] == "build" || q[0] == "buildc") }
+func isoIsBuild(q []string) bool { return len(q) == 3 && (q[0] == "build" || q[0] == "buildc") }
 
-func validQuery(q []string) bool {
+func isoValidQuery(q []string) bool {
 	if len(q) == 0 {
 		return false
 	}
@@ -394,14 +394,14 @@ func validQuery(q []string) bool {
 	return false
 }
 
-type buildRes struct {
+type isoBuildRes struct {
 	err    bool
 	ins    []string // "T:idx" in transaction order
 	outSum int64
 	fee    uint64
 }
 
-func (r buildRes) String() string {
+func (r isoBuildRes) String() string {
 	if r.err {
 		return "err"
 	}
@@ -410,14 +410,14 @@ func (r buildRes) String() string {
 
 // build runs EstimateTxFee (commit=false) or AutoCreateRawTransaction (commit=true; the reservation
 // it leaves in the volatile used-coin cache is cleared again so that runs stay independent).
-func (x *isoExec) build(w string, amt int64, commit bool) buildRes {
+func (x *isoExec) build(w string, amt int64, commit bool) isoBuildRes {
 	e := x.e
 	if err := e.Use(w); err != nil {
-		return buildRes{err: true}
+		return isoBuildRes{err: true}
 	}
 	a, err := massutil.NewAmountFromInt(amt)
 	if err != nil {
-		return buildRes{err: true}
+		return isoBuildRes{err: true}
 	}
 	dest := e.Stranger("X9").enc
 	amounts := map[string]massutil.Amount{dest: a}
@@ -429,11 +429,11 @@ func (x *isoExec) build(w string, amt int64, commit bool) buildRes {
 		if err == nil {
 			raw, derr := hex.DecodeString(hx)
 			if derr != nil {
-				return buildRes{err: true}
+				return isoBuildRes{err: true}
 			}
 			mtx = wire.NewMsgTx()
 			if _, derr = mtx.Decode(bytes.NewReader(raw), wire.Packet); derr != nil {
-				return buildRes{err: true}
+				return isoBuildRes{err: true}
 			}
 			e.wm.ClearUsedUTXOMark(mtx)
 		}
@@ -444,9 +444,9 @@ func (x *isoExec) build(w string, amt int64, commit bool) buildRes {
 		if verifDebug {
 			fmt.Fprintln(os.Stderr, "  [build error]", err)
 		}
-		return buildRes{err: true}
+		return isoBuildRes{err: true}
 	}
-	r := buildRes{fee: fee.UintValue()}
+	r := isoBuildRes{fee: fee.UintValue()}
 	for _, in := range mtx.TxIn {
 		r.ins = append(r.ins, fmt.Sprintf("%s:%d", e.txName(in.PreviousOutPoint.Hash.String()), in.PreviousOutPoint.Index))
 	}
@@ -477,7 +477,7 @@ func (x *isoExec) matureCoins(w string) map[string]uint64 {
 	return out
 }
 
-func buildConsistent(r buildRes, boundaries []map[string]uint64) bool {
+func isoBuildConsistent(r isoBuildRes, boundaries []map[string]uint64) bool {
 	if r.err {
 		return true
 	}
@@ -516,10 +516,10 @@ func (x *isoExec) notify(b string) string {
 	return errTok(x.e.wm.VerifProcessBlock(bi.msg))
 }
 
-func (x *isoExec) runQuery(q []string, at map[int]func()) (string, buildRes, int) {
+func (x *isoExec) runQuery(q []string, at map[int]func()) (string, isoBuildRes, int) {
 	s := x.s
 	var ans string
-	var br buildRes
+	var br isoBuildRes
 	// select the wallet before counting starts (UseWallet reads the database itself)
 	x.e.Use(q[1])
 	s.n, s.at, s.kinds = 0, at, x.stats
@@ -529,10 +529,10 @@ func (x *isoExec) runQuery(q []string, at map[int]func()) (string, buildRes, int
 			s.active = false
 			if r := recover(); r != nil {
 				ans = "PANIC"
-				br = buildRes{err: false, ins: []string{"PANIC"}}
+				br = isoBuildRes{err: false, ins: []string{"PANIC"}}
 			}
 		}()
-		if isBuild(q) {
+		if isoIsBuild(q) {
 			amt, _ := strconv.ParseInt(q[2], 10, 64)
 			br = x.build(q[1], amt, q[0] == "buildc")
 			ans = br.String()
@@ -545,7 +545,7 @@ func (x *isoExec) runQuery(q []string, at map[int]func()) (string, buildRes, int
 
 func (x *isoExec) sweep(blks []string, only []int, q []string) string {
 	e := x.e
-	if !validQuery(q) || len(blks) < 1 || len(blks) > 2 {
+	if !isoValidQuery(q) || len(blks) < 1 || len(blks) > 2 {
 		return "bad-op"
 	}
 	for _, b := range blks {
@@ -563,7 +563,7 @@ func (x *isoExec) sweep(blks []string, only []int, q []string) string {
 	if err != nil {
 		return "err-save"
 	}
-	build := isBuild(q)
+	build := isoIsBuild(q)
 	// 1. the query in isolation at every boundary
 	var iso []string
 	var coins []map[string]uint64
@@ -590,12 +590,12 @@ func (x *isoExec) sweep(blks []string, only []int, q []string) string {
 	if build {
 		head = notes + " build"
 	}
-	allowed := func(a string, br buildRes, upto int) bool {
+	allowed := func(a string, br isoBuildRes, upto int) bool {
 		if a == "PANIC" {
 			return false
 		}
 		if build {
-			return buildConsistent(br, coins[:upto+1])
+			return isoBuildConsistent(br, coins[:upto+1])
 		}
 		for _, s := range iso[:upto+1] {
 			if s == a {
